@@ -109,17 +109,33 @@ RepOk(rep, k, ngroups) ==
   ELSE IF rep[k] = 92 THEN k < Len(rep) /\ rep[k + 1] \in {36, 92} /\ RepOk(rep, k + 2, ngroups)
   ELSE RepOk(rep, k + 1, ngroups)
 
-RECURSIVE ReplaceFrom(_, _, _, _)
-ReplaceFrom(r, s, rep, i) ==
-  LET f == Find(r, s, i) IN
+\* t is the text matched on, s the text copied from (they differ only by case folding)
+RECURSIVE ReplaceFrom(_, _, _, _, _)
+ReplaceFrom(r, t, s, rep, i) ==
+  LET f == Find(r, t, i) IN
   IF ~f.found THEN SubSeq(s, i, Len(s))
-  ELSE SubSeq(s, i, f.b - 1) \o Expand(rep, 1, s, f.caps) \o ReplaceFrom(r, s, rep, f.e)
-Replace(r, s, rep) == ReplaceFrom(r, s, rep, 1)
+  ELSE SubSeq(s, i, f.b - 1) \o Expand(rep, 1, s, f.caps) \o ReplaceFrom(r, t, s, rep, f.e)
+Replace(r, s, rep) == ReplaceFrom(r, s, s, rep, 1)
 
-RECURSIVE SplitFrom(_, _, _)
-SplitFrom(r, s, i) ==
-  LET f == Find(r, s, i) IN
+RECURSIVE SplitFrom(_, _, _, _)
+SplitFrom(r, t, s, i) ==
+  LET f == Find(r, t, i) IN
   IF ~f.found THEN <<SubSeq(s, i, Len(s))>>
-  ELSE <<SubSeq(s, i, f.b - 1)>> \o SplitFrom(r, s, f.e)
-Split(r, s) == SplitFrom(r, s, 1)
+  ELSE <<SubSeq(s, i, f.b - 1)>> \o SplitFrom(r, t, s, f.e)
+Split(r, s) == SplitFrom(r, s, s, 1)
+
+\* flag "i": letters A..Z and a..z are matched without regard to case
+Fold(c) == IF c >= 65 /\ c <= 90 THEN c + 32 ELSE c
+FoldS(s) == [k \in 1..Len(s) |-> Fold(s[k])]
+RECURSIVE FoldRe(_)
+FoldRe(r) ==
+  CASE r.r = "chr" -> [r |-> "chr", c |-> Fold(r.c)]
+    [] r.r = "cls" -> [r |-> "cls", set |-> FoldS(r.set), neg |-> r.neg]
+    [] r.r = "rng" -> [r |-> "rng", lo |-> Fold(r.lo), hi |-> Fold(r.hi), neg |-> r.neg]
+    [] r.r \in {"cat", "alt"} -> [r |-> r.r, a |-> FoldRe(r.a), b |-> FoldRe(r.b)]
+    [] r.r \in {"star", "plus", "opt"} -> [r |-> r.r, a |-> FoldRe(r.a)]
+    [] r.r = "grp" -> [r |-> "grp", a |-> FoldRe(r.a), g |-> r.g]
+    [] OTHER -> r
+MatchesI(r, s) == Matches(FoldRe(r), FoldS(s))
+ReplaceI(r, s, rep) == ReplaceFrom(FoldRe(r), FoldS(s), s, rep, 1)
 =============================================================================
